@@ -164,9 +164,9 @@ Proof. exact phase_sound. Qed.
 (* ------------------------------------------------------------------------------------------ *)
 (* MatrixEntryComparer                                                                          *)
 (* ------------------------------------------------------------------------------------------ *)
-Theorem C16_entry_model : forall d tl pc ss,
+Theorem C16_entry_model : forall d tl pc tr ss,
   Forall (fun es => shape_eqb (shape_of (fst es)) (shape_of (snd es)) = true) ss ->
-  matrix_entry_cmp (Some d) tl pc ss = entry_credit pc (entry_summary tl ss).
+  matrix_entry_cmp (Some d) tl pc tr ss = entry_credit pc (entry_summary tl (map (fun es => (tr (fst es), tr (snd es))) ss)).
 Proof. exact entry_cmp_valid_shape. Qed.
 
 Theorem C16_entry_summary_spec : forall tl ss n, ss <> [] ->
@@ -242,11 +242,37 @@ Proof. exact linear_holds_iff. Qed.
 (* ------------------------------------------------------------------------------------------ *)
 (* wrong shapes are reported according to the mismatch policy, never graded                      *)
 (* ------------------------------------------------------------------------------------------ *)
+(* `c` ranges over ALL configurations of the comparers, in particular over every transform of EqualityComparer /
+   MatrixEntryComparer (CmpEquality tr, CmpEntry pc tr with tr : value -> value arbitrary -- shape-preserving,
+   shape-collapsing like norm/trace/sum, shape-changing like transpose): the shape of the RAW submission is
+   validated against the RAW expected value before any transform is applied. *)
 Theorem C16_shape_mismatch_policy : forall p tl c ag failable s ss exp,
   expected_shape c (s_params s) = Some exp ->
   shape_eqb exp (shape_of (s_student s)) = false ->
   grade (GMatrix p) tl c ag failable (s :: ss) = mismatch_outcome p exp (shape_of (s_student s)).
 Proof. exact shape_mismatch_policy. Qed.
+
+(* EqualityComparer: right shape -> both sides transformed, then within_tolerance; wrong shape -> the transform is
+   never consulted *)
+Theorem C16_equality_model : forall d tl tr e s, shape_eqb (shape_of e) (shape_of s) = true ->
+  equality_cmp (Some d) tl tr e s = CBool (within tl (flat (tr e)) (flat (tr s))).
+Proof. exact equality_cmp_valid_shape. Qed.
+
+Theorem C16_equality_wrong_shape_ignores_transform : forall d tl tr tr' e s,
+  shape_eqb (shape_of e) (shape_of s) = false ->
+  equality_cmp (Some d) tl tr e s = equality_cmp (Some d) tl tr' e s.
+Proof. exact equality_cmp_wrong_shape. Qed.
+
+(* answer [3,0,4] compared through the norm: [0,5,0] is accepted; the scalar 5 (same norm) is a shape mismatch *)
+Example C16_ex_transform :
+  let nrm := fun v => match v with VVec [(a, _); (b, _); (c, _)] => VNum (NReal (if Qeq_bool (a*a+b*b+c*c) 25 then 5 else 0))
+                                 | VNum n => VNum n | v => v end in
+  let e := VVec [(3, 0); (0, 0); (4, 0)] in
+  grade (GMatrix (mkPolicy false true DType)) (TPct (1 # 10000)) (CmpEquality nrm) 1 0 [mkS [e] (VVec [(0, 0); (5, 0); (0, 0)]) []]
+    = ORes OkTrue 1 MsgNone /\
+  grade (GMatrix (mkPolicy false true DType)) (TPct (1 # 10000)) (CmpEquality nrm) 1 0 [mkS [e] (VNum (NReal 5)) []]
+    = ORaise (XInputType (MsgShape (SMExpected 1 [] 0 [] false))).
+Proof. vm_compute. split; reflexivity. Qed.
 
 (* ------------------------------------------------------------------------------------------ *)
 (* on the definitions REGENERATED from the source (Gen/Comparers.v), through the bridge          *)
@@ -310,8 +336,8 @@ Proof. vm_compute. repeat split. Qed.
 Example C16_ex_entry :
   let e := VMat [[(1, 0); (2, 0)]; [(3, 0); (4, 0)]] in
   let s := VMat [[(1, 0); (2, 0)]; [(3, 0); (5, 0)]] in
-  matrix_entry_cmp (Some DType) (TPct (1 # 10000)) PCProp [(e, s); (e, s)] = CDict (3 # 4) (MsgEntries [true; true; true; false]) /\
-  matrix_entry_cmp (Some DType) (TPct (1 # 10000)) (PCFlat (1 # 5)) [(e, s)] = CDict (1 # 5) (MsgEntries [true; true; true; false]).
+  matrix_entry_cmp (Some DType) (TPct (1 # 10000)) PCProp (fun v => v) [(e, s); (e, s)] = CDict (3 # 4) (MsgEntries [true; true; true; false]) /\
+  matrix_entry_cmp (Some DType) (TPct (1 # 10000)) (PCFlat (1 # 5)) (fun v => v) [(e, s)] = CDict (1 # 5) (MsgEntries [true; true; true; false]).
 Proof. vm_compute. split; reflexivity. Qed.
 
 (* linear: student = 2 * expected gets the proportional credit; student = expected + 1 gets the offset credit *)
